@@ -1,8 +1,10 @@
 /- line-protocol handler for the COLR palette closure model (Model/SubsetColrPal.lean)
   c17.colr.v0pal R <gid first num>… L <gid pal>… G <gid>…   → ascending palette indices (`-` = none)
+  c17.colr.v1pal <COLR table hex> G <gid>…                   → ascending palette indices `v1_closure` collects | rerr | fuel | trap
   c17.colr.pals  V <v1 idx>… R … L … G …                     → `colr_palettes` as `old new` pairs
 -/
 import FontVerif.Model.SubsetColrPal
+import FontVerif.Model.HandColr
 namespace FontVerif.Drv.C17ColrPal
 open FontVerif FontVerif.SubsetColrPal
 
@@ -40,6 +42,17 @@ def handle (cmd : String) (args : List String) : Option String :=
     let layers ← pairs (← natList l)
     let ps := colrPalettes (← natList v) recs layers (← natList g)
     some (joinNats (ps.flatMap (fun p => [p.1, p.2])))
+  | "c17.colr.v1pal" => do
+    let hex :: rest := args | none
+    let [_, g] ← sections ["G"] rest | none
+    let d ← parseHex? hex
+    let gids ← natList g
+    match HandColr.colrRead d with
+    | none => some "rerr"
+    | some t =>
+      let c := (HandColr.v1ClosureOf t gids).1
+      if c.starved then some "fuel" else if c.trap then some "trap"
+      else some (joinNats (paletteSet c.palettes))
   | _ => none
 
 end FontVerif.Drv.C17ColrPal
